@@ -277,9 +277,26 @@ def model_trace(bits, start, block, program):
     return tr
 
 
-def serdes_trace(I, data, start, block, program):
-    r = I.Reader(io.BytesIO(data))
-    r.seek(0, 7 - start)
+PREFIX_JUNK = b"\xa5\x5a\xff"
+
+
+def _file_at(data, prefix):
+    """A file object positioned at the first byte of `data`, `prefix` junk bytes in."""
+    f = io.BytesIO(PREFIX_JUNK[:prefix] + data)
+    f.seek(prefix)
+    return f
+
+
+def shift_trace(tr, prefix):
+    """The model's positions when the stream starts `prefix` bytes into the file."""
+    if not prefix:
+        return tr
+    return [s[:2] + ((s[2][0] + prefix, s[2][1]),) + s[3:] for s in tr]
+
+
+def serdes_trace(I, data, start, block, program, prefix=0):
+    r = I.Reader(_file_at(data, prefix))
+    r.seek(prefix, 7 - start)
     if block is not None:
         r.bounded_block_begin(block)
     tr = []
@@ -300,11 +317,11 @@ def serdes_trace(I, data, start, block, program):
     return tr
 
 
-def decoder_trace(I, data, start, block, program):
+def decoder_trace(I, data, start, block, program, prefix=0):
     """None if the decoder cannot be positioned (file shorter than the start offset)."""
     dio = I.dio
     st = I.State()
-    dio.init_io(st, io.BytesIO(data))
+    dio.init_io(st, _file_at(data, prefix))
     try:
         dio.read_nbits(st, start)
     except I.UEOS:
@@ -356,6 +373,24 @@ def reader_case(data, start, block, program):
         st = [("raised", type(e).__name__, str(e))]
     if st != mt:
         problems.append("BitstreamReader trace %r != model %r" % (st, mt))
+    if len(data) <= 2:
+        prefix = 1 + (len(program) + start) % 3
+        mtp = shift_trace(mt, prefix)
+        try:
+            stp = serdes_trace(I, data, start, block, program, prefix)
+        except Exception as e:  # noqa
+            stp = [("raised", type(e).__name__, str(e))]
+        if stp != mtp:
+            problems.append("BitstreamReader on a stream starting at byte %d: trace %r != model %r" % (prefix, stp, mtp))
+        if dec_supports(program, block):
+            try:
+                dtp = decoder_trace(I, data, start, block, program, prefix)
+            except Exception as e:  # noqa
+                dtp = [("raised", type(e).__name__, str(e))]
+            if dtp is not None:
+                p = compare_decoder(mtp, dtp, program)
+                if p:
+                    problems.append("stream starting at byte %d: %s" % (prefix, p))
     dec = "nodec"
     if dec_supports(program, block):
         try:
@@ -411,6 +446,25 @@ def _shard_readers(arg):
                     p = compare_decoder(mt, dt, program)
                     if p and not bad:
                         bad = p
+            if not bad and len(data) <= 2:
+                # the same stream starting 1..3 bytes into the file: same values, positions shifted
+                prefix = 1 + (len(program) + start) % 3
+                mtp = shift_trace(mt, prefix)
+                try:
+                    stp = serdes_trace(I, data, start, block, program, prefix)
+                except Exception as e:  # noqa
+                    stp = [("raised", type(e).__name__, str(e))]
+                if stp != mtp:
+                    bad = "BitstreamReader on a stream starting at byte %d: trace %r != model %r" % (prefix, stp, mtp)
+                elif dec == "dec":
+                    try:
+                        dtp = decoder_trace(I, data, start, block, program, prefix)
+                    except Exception as e:  # noqa
+                        dtp = [("raised", type(e).__name__, str(e))]
+                    p = compare_decoder(mtp, dtp, program)
+                    if p:
+                        bad = "stream starting at byte %d: %s" % (prefix, p)
+                t.n["reader_cases_with_prefix"] += 1
             last = mt[-1][0] if mt else "empty"
             past = "within"
             for s in mt:
